@@ -199,6 +199,9 @@ def parse_template(lines, flavour):
         elif s.startswith("//@loop-end "):
             sink = []
             cur.splices.append(("loop-end", int(s.split()[1]), sink))
+        elif s.startswith("//@after-loop "):
+            sink = []
+            cur.splices.append(("after-loop", int(s.split()[1]), sink))
         elif s == "//@body-start":
             sink = []
             cur.splices.append(("body-start", None, sink))
@@ -803,6 +806,12 @@ def generate(template_path, flavour, repo="/repo", vacuity=False, rules=None, ba
         if n17 and b.id not in ("Graph::index", "Graph::index_val"):
             body = rx17.sub(lambda mm: "%s.index(&%s)" % (mm.group(1), mm.group(2)), body)
             stats["R17"] = stats.get("R17", 0) + n17
+        # R18: the set-exclusion filter closure handed to a traversal builder -> the shim filter_excl(&set)
+        rx18 = re.compile(r"\.\s*filter\(\s*&mut\s*\|\s*Edge\(\s*_\s*,\s*(\w+)\s*,\s*_\s*\)\s*\|\s*!\s*(\w+)\s*\.\s*contains\(\s*\1\s*\.\s*key\(\)\s*\)\s*\)")
+        n18 = len(rx18.findall(body))
+        if n18:
+            body = rx18.sub(lambda mm: ".filter_excl(&%s)" % mm.group(2), body)
+            stats["R18"] = stats.get("R18", 0) + n18
         # R14: `mut self` receiver (unsupported by Verus) -> `self` + `let mut slf = self;`
         if re.search(r"\(\s*mut\s+self\b", mask(sig)):
             sig = re.sub(r"\(\s*mut\s+self\b", "(self", sig, count=1)
@@ -853,6 +862,10 @@ def generate(template_path, flavour, repo="/repo", vacuity=False, rules=None, ba
                         pos = loops[pat - 1]["body_close"]
                     else:
                         raise ExtractError("loop-end %d: no such loop" % pat)
+                elif where == "after-loop":
+                    if not (1 <= pat <= len(loops)):
+                        raise ExtractError("after-loop %d: no such loop" % pat)
+                    pos = loops[pat - 1]["body_close"] + 1
                 elif where == "before-loop":
                     if not (1 <= pat <= len(loops)):
                         raise ExtractError("before-loop %d: no such loop" % pat)
